@@ -376,6 +376,13 @@ def predictions(case, kpaths, seed, n):
         out = {}
         rd = Reader(chosen.dom)
         hm = None
+        if dom_name == 'real' and not getattr(chosen.dom, 'hyp', None) and getattr(chosen.dom, 'nz', None):
+            # plain / fraction-free division: an input that makes a divisor zero is outside the claim (native gives inf/nan)
+            zero = False
+            for t in chosen.dom.nz:
+                e = eval_term(t[1] if isinstance(t, tuple) else t, subs)
+                if z3.is_rational_value(e) and (e.as_fraction() == 0 if not isinstance(t, tuple) else e.as_fraction() < 0): zero = True; break
+            if zero: continue
         if getattr(chosen.dom, 'hyp', None) and dom_name == 'real':
             # purified quotients / roots / named intermediates: after substituting the inputs their defining equations are
             # solved (in order) by z3, which gives the values of the purification variables for this input
